@@ -336,16 +336,16 @@ theorem version_ops_consistent (x y : GoVersion) :
 is "the relation holds for the captured expression's type, for every element of a list capture" —
 whichever accessor it reads. -/
 theorem rel_eq_spec (r : Rel) (o : Oracle) (hr : r ≠ .hasMethod ∧ r ≠ .identicalTo) :
-    relFilter true r o = SpecC02.relHolds o := by
-  cases r <;> simp_all [relFilter, SpecC02.relHolds, allElems, Oracle.onNode] <;> rfl
+    relFilter true r o = SpecC02.relSpec r o := by
+  cases r <;> simp_all [relFilter, SpecC02.relSpec, SpecC02.aboutNode, SpecC02.relHolds, allElems, Oracle.onNode] <;> rfl
 
 /-- The code as it stood (`stmt = false`): the predicates that read `subNode` agree only when the capture is
 an expression (the two accessors coincide).  Before and after: `HasMethod` / `IdenticalTo` ignore
 expression lists. -/
 theorem rel_eq_spec_partial (stmt : Bool) (r : Rel) (o : Oracle) (h : stmt = false → o.onSubNode = o.onSubExpr)
     (hl : (r = .hasMethod ∨ r = .identicalTo) → o.onElems = none) :
-    relFilter stmt r o = SpecC02.relHolds o := by
-  cases stmt <;> cases r <;> simp_all [relFilter, SpecC02.relHolds, allElems, Oracle.onNode] <;> rfl
+    relFilter stmt r o = SpecC02.relSpec r o := by
+  cases stmt <;> cases r <;> simp_all [relFilter, SpecC02.relSpec, SpecC02.aboutNode, SpecC02.relHolds, allElems, Oracle.onNode] <;> rfl
 
 /-- list captures: the list-aware expression predicates are the conjunction over the elements -/
 theorem exprList_forall (p : Option Ex → Bool) (es : List Ex) :
@@ -597,6 +597,14 @@ example : evalPred .repaired (.ofKind false "nonsense") = none ∧ evalPred .rep
     evalPred .repaired (.nodeIs false "Bogus") = none ∧ (evalPred .repaired (.objectIs "Var")).isSome = true := by decide
 example : ∃ f, evalPred .repaired (.rel .typeIs) = some f ∧ f (site1 (.basicLit false) tInt8 (some ⟨false, true, none⟩)) = some (.ok true) ∧
     f (site1 (.basicLit false) tInt8 none) = none := ⟨_, rfl, by decide, by decide⟩
+-- the relations about the captured node itself (its sink, its source text): a `$*xs` capture is one node there —
+-- `probeN()` with `Text.Matches("^$")`: the text of the empty list is "", regexp accepts it, so does the filter
+example : ∃ f, evalPred .repaired (.rel .textMatches) = some f ∧ f (siteN [] [] (some ⟨true, true, none⟩)) = some (.ok true) ∧
+    SpecC02.specPred (.rel .textMatches) (siteN [] [] (some ⟨true, true, none⟩)) = some true ∧
+    SpecC02.specPred (.rel .typeIs) (siteN [] [] (some ⟨false, false, some []⟩)) = some true := ⟨_, rfl, by decide, by decide, by decide⟩
+example : ∀ r o, SpecC02.aboutNode r = true → relFilter true r o = o.onSubNode := by
+  intro r o h; cases r <;> simp_all [SpecC02.aboutNode, relFilter]
+example : relFilter true .sinkTypeIs ⟨false, true, some [true]⟩ = false ∧ SpecC02.relSpec .sinkTypeIs ⟨false, true, some [true]⟩ = false := by decide
 example : ScopeOKCap (.decl false) (.list [idVar false false true true, .basicLit false]) := by
   intro e he
   simp only [List.mem_cons, List.mem_nil_iff, or_false] at he
